@@ -68,7 +68,7 @@ Definition case_proj (cur : nat) (kr : raise_spec) (nest : nest_spec) : nat -> l
         match nest with
         | Some (kn, nfacts, limit2, d2, kr2) =>
             if Nat.eqb k kn then
-              match evaluate_bounded (facts_ans nfacts) (simple_proj kr2) (fun _ _ => d2) (cur + 1) true
+              match evaluate_bounded (facts_ans nfacts) (fun _ => ERuntime) (simple_proj kr2) (fun _ _ => d2) (cur + 1) true
                                      {| rl := r; gs := Susp 0 |} limit2 with
               | (Return x, st') => (PVal (5000 + length x), rl st')
               | (Propagate e, st') => (PRaise e, rl st')
@@ -86,7 +86,7 @@ Definition run_bounded_m (p : program) (name : str) (args : list term) (nq : nat
       let thi := machine_ans ir name args nq dhi in
       let tlo := machine_ans ir name args nq dlo in
       let ans := fun n => if Nat.eqb n dhi then thi else if Nat.eqb n dlo then tlo else machine_ans ir name args nq n in
-      let m := fun d => evaluate_bounded ans (case_proj cur kr nest) (fun _ _ => d) cur true
+      let m := fun d => evaluate_bounded ans (fun _ => ERuntime) (case_proj cur kr nest) (fun _ _ => d) cur true
                                          {| rl := rl0; gs := Susp 0 |} limit in
       OL [ OL (map tuple_obs (firstn cap (fst thi))); onat (length (fst thi)); fin_obs (snd thi);
            onat (length (fst tlo)); fin_obs (snd tlo);
